@@ -140,6 +140,7 @@ CHECKS["C08"] = {
 }
 
 CHECKS["C06"] = {
+    "engine_only_labels": ["C06.stop.timers-stopped", "C06.stop.goroutines-ended"],
     "jobs": {
         "quick": [{"pkg": "internal/pfcp", "entries": ["ZZ_C06_*"], "witnesses": 3, "max_paths": 400000, "budget_s": 900}],
         "thorough": [{"pkg": "internal/pfcp", "entries": ["ZZ_C06_*"], "witnesses": 6, "max_paths": 4000000, "budget_s": 3000}],
@@ -235,6 +236,7 @@ CHECKS["C16"] = {
 }
 
 CHECKS["C15"] = {
+    "engine_only_labels": ["C15.close.no-goroutine-left", "C15.close.all-tickers-stopped", "C15.tickers.one-per-nonempty-period", "C15.tickers.stopped-when-empty"],
     "dep_overlays": NL_OV, "extra_pkgs": ["internal/forwarder/perio"],
     "jobs": {
         "quick": [{"pkg": "internal/forwarder/perio", "entries": ["ZZ_C15_*"], "witnesses": 3, "max_paths": 400000, "budget_s": 900},
